@@ -19,6 +19,7 @@ pub mod node;
 pub mod ackchain;
 pub mod config;
 pub mod seq;
+pub mod ns;
 pub mod filestore;
 pub mod logfile;
 
@@ -36,6 +37,7 @@ pub fn make(name: &str) -> Option<Box<dyn Suite>> {
         "console" => Some(Box::new(console::Console::new())),
         "config" => Some(Box::new(config::Config::new())),
         "seq" => Some(Box::new(seq::Seq::new())),
+        "ns" => Some(Box::new(ns::Ns::new())),
         "logfile" => Some(Box::new(logfile::LogFile::new())),
         "filestore" => Some(Box::new(filestore::FileStoreSuite::new())),
         "ackchain" => Some(Box::new(ackchain::AckChain::new())),
